@@ -6,6 +6,7 @@ import (
 	"fmt"
 	"math/rand"
 	"strings"
+	"time"
 )
 
 func u64(v uint64) *uint64   { return &v }
@@ -761,7 +762,22 @@ func tcpResetCase(r *rand.Rand, id int) *Case {
 	}
 	t0, t1 := fmt.Sprintf("%d000000000", baseSec), fmt.Sprintf("%d000000000", baseSec+300)
 	line := strings.Repeat("x", 120)
-	switch r.Intn(5) {
+	switch r.Intn(7) {
+	case 5:
+		c.Class = "test/tcp_reset/prom_range"
+		c.Path = "/api/v1/query_range"
+		c.Params = []KV{{"query", "up"}, {"start", fmt.Sprint(baseSec)}, {"end", fmt.Sprint(baseSec + 3000)}, {"step", "1"}}
+		c.Script = big(3, []Cell{{U: u64(1)}, {F: f64(1)}, {I: i64(baseSec * 1000)}}, 20000)
+	case 6:
+		// live tail over a websocket: read a message or two, then the client is gone (the ticker goroutine notices at its next tick)
+		c.Class = "test/ws_tail_client_gone"
+		c.Ws = true
+		k := r.Intn(3)
+		c.AbortAfter = &k
+		c.WaitMs = 2500
+		c.Path = "/loki/api/v1/tail"
+		c.Params = []KV{{"query", []string{`{a="b"}`, `{a="b"} | json`, `{a="b"} |= "x"`}[r.Intn(3)]}}
+		c.Script = []ResultSet{{Match: "", Cols: 4, FailAfter: -1, Rows: [][]Cell{{{U: u64(1)}, {M: map[string]string{"a": "b"}}, {S: str(`{"x":"1"}`)}, {I: i64(time.Now().UnixNano())}}}}}
 	case 0:
 		c.Class = "test/tcp_reset/loki_range_log"
 		c.Path = "/loki/api/v1/query_range"
